@@ -233,7 +233,7 @@ P = {
     "required_classes": _required(),
     "signature": _sig,
     "corrupt": _corrupt,
-    "level_text": "JarRemap.tla states, per reference kind of the class-file format (the 35 kinds of cfkit::refs plus the simple name of an InnerClasses row and the names of annotation elements), which columns of a reference row are class names, member names, field / method descriptors or signatures and which question the remapper (module Remapper, property C06: class table, member tables, search through the recorded inheritance) is asked for them; the entry-name rule (class entry = remapped name of the class it holds, also behind META-INF/versions/<n>/), that non-class entries and the residual of every class (everything but the reference strings, cut into chunks) stay as they are, and the law on a remapped jar (no entry lost, invented or doubled; entries collide only when the class map is not injective on the jar). The traversal of dukebox/src/remap.rs is modelled impl by impl, once as the law demands and once as coded; TLC checks over a bounded universe (jars of 1-3 generated classes with inheritance inside / outside the jar, shadowed and inherited members, 9 class renamings incl. package moves and inner classes, 5 member renamings under named / unnamed classes, one probe of every reference kind, directories / resources / multi-release / misnamed entries) that the repaired traversal is the law row by row, that the code as it stands deviates only at the listed positions, that both admissible readings of the member search agree there, that renaming keeps row shapes and descriptor structure, that an empty mapping set is the identity, and the entry laws. Every case is replayed through dukebox::remap::remap(...).to_mem(): the input jar is assembled by the independent assembler, the result is reopened with zip and every class parsed by the independent parser; its reference rows per kind are compared with TLC's. A sample of these results and seeded random jars (all cfkit sample classes, groups of corpus classes with their super types inside or outside the jar, generated hierarchies; partial mappings, package moves, inner classes, members of JDK and library super types) are judged by Trace_JarRemap: TLC recomputes every remapper answer from the recorded mapping set and inheritance, maps the input rows and compares row by row, compares residual chunks, applies the entry-name rule and WellFormed (C02) to every class of the result. The same renames are also stated by a mapping set over three namespaces whose first (key) namespace is neither the jar's nor the target's (member descriptors written in key names, as quill stores them) and the jar is remapped from the second to the third namespace: TLC checks that this statement gives the same remapper context (InvVia) and the cases are replayed through Mappings::remapper_b(from, to); every fourth random record is stated that way and Trace_JarRemap recomputes the answers from the recorded from / to. Jars with package-info classes (plain and below META-INF/versions/<n>/) whose package is moved are among the entry cases.",
+    "level_text": "JarRemap.tla states, per reference kind of the class-file format (the 35 kinds of cfkit::refs plus the simple name of an InnerClasses row and the names of annotation elements), which columns of a reference row are class names, member names, field / method descriptors or signatures and which question the remapper (module Remapper, property C06: class table, member tables, search through the recorded inheritance) is asked for them; the entry-name rule (class entry = remapped name of the class it holds, also behind META-INF/versions/<n>/), that non-class entries and the residual of every class (everything but the reference strings, cut into chunks) stay as they are, and the law on a remapped jar (no entry lost, invented or doubled; entries collide only when the class map is not injective on the jar). The traversal of dukebox/src/remap.rs is modelled impl by impl, once as the law demands and once as coded; TLC checks over a bounded universe (jars of 1-3 generated classes with inheritance inside / outside the jar, shadowed and inherited members, 9 class renamings incl. package moves and inner classes, 5 member renamings under named / unnamed classes, one probe of every reference kind, directories / resources / multi-release / misnamed entries) that the repaired traversal is the law row by row, that the code as it stands deviates only at the listed positions, that both admissible readings of the member search agree there, that renaming keeps row shapes and descriptor structure, that an empty mapping set is the identity, and the entry laws. Every case is replayed through dukebox::remap::remap(...).to_mem(): the input jar is assembled by the independent assembler, the result is reopened with zip and every class parsed by the independent parser; its reference rows per kind are compared with TLC's. A sample of these results and seeded random jars (all cfkit sample classes, groups of corpus classes with their super types inside or outside the jar, generated hierarchies; partial mappings, package moves, inner classes, members of JDK and library super types) are judged by Trace_JarRemap: TLC recomputes every remapper answer from the recorded mapping set and inheritance, maps the input rows and compares row by row, compares residual chunks, applies the entry-name rule and WellFormed (C02) to every class of the result. The same renames are also stated by a mapping set over three namespaces whose first (key) namespace is neither the jar's nor the target's (member descriptors written in key names, as quill stores them) and the jar is remapped from the second to the third namespace: TLC checks that this statement gives the same remapper context (InvVia) and the cases are replayed through Mappings::remapper_b(from, to); every fourth random record is stated that way and Trace_JarRemap recomputes the answers from the recorded from / to. Jars with package-info classes (plain and below META-INF/versions/<n>/) whose package is moved are among the entry cases. String constants that spell a mapped class (dotted, slashed, as a descriptor) are probes of what must not change.",
     "level_note": "Trusted: TLC and its string operators, cfkit (assembler for generated inputs, parser, reference rows, residual), the zip crate, and in harness/src/drivers/c07.rs the regrouping of cfkit's rows per kind, the join of an invokedynamic row with the owner of its bootstrap method and its first static argument, the walker that lists annotation element names, the re-sorting of LocalVariable(Type)Table rows by their non-reference columns (cfkit sorts them by content, which renaming would permute) and the chunking / hashing of the residual. Stack map types are additionally observed on the remapped tree (cfkit::proj_duke), because the class writer emits no StackMapTable (C02-W1). Where the property leaves freedom the law is a relation: simple name of an InnerClasses row (kept, or the part of the new binary name behind a $), annotation element names (any no-argument method of that name of the annotation interface the mapping set renames), signatures whose nested class has no spelling after renaming (not judged), both readings of nearest declaring super type (C06), entries whose name is not that of their class and jars in which two entries can be given the same name (judged entry by entry where no collision is possible; refusal accepted). Outside the quantifier: names that are empty strings or not UTF-16, cyclic inheritance, mapping sets with parameter entries. The signature function names the faults of a record TLC refused (for matching known findings narrowly); it does not decide.",
     "assumptions": ["TLC/SANY/CommunityModules", "cfkit assembler, parser, refs and residual", "zip crate",
                     "regrouping / joins / chunk hashing in harness/src/drivers/c07.rs",
